@@ -87,10 +87,21 @@ def run_mutant(slot, m, checks, tier, skip_tests):
         res["status"] = "harness_build_failed"
         res["build_tail"] = b.stdout[-600:]
         return res
+    # the pass against fast_qr compiled without the verification flag (see check.sh), where the snapshot has one
+    plain = None
+    if "build_plain" in open(f"{verif}/check.sh").read():
+        sh('RUSTFLAGS="--cfg fqv_plain" cargo build --release --offline -p fqv --target-dir target-plain 2>&1 | tail -5', cwd=f"{verif}/harness")
+        if os.path.exists(f"{verif}/harness/target-plain/release/fqv"):
+            plain = f"{verif}/harness/target-plain/release/fqv"
     fired = {}
     for c in checks:
         t0 = time.time()
-        if tier == "fuzz":
+        rp = None
+        if plain and tier != "fuzz" and c not in ("C07", "C11", "C17"):
+            rp = sh(f"{plain} {c} quick", cwd=verif, env={"FQV_VERIF_DIR": verif, "VERIF_TIER": "quick"})
+        if rp is not None and rp.returncode == 1:
+            r = rp   # check.sh stops here as well
+        elif tier == "fuzz":
             # coverage-guided campaign only (the evidence file it merges into must exist: run the quick tier first)
             sh(f"{verif}/harness/target/release/fqv {c} quick", cwd=verif, env={"FQV_VERIF_DIR": verif})
             r = sh(f"{verif}/fuzz/run_campaign.sh {c}", cwd=verif, env={"FQV_VERIF_DIR": verif, "FQV_FUZZ_RUNS": os.environ.get("FQV_FUZZ_RUNS", "30000")})
@@ -99,7 +110,7 @@ def run_mutant(slot, m, checks, tier, skip_tests):
         lines = r.stdout.splitlines()
         viol = [l for l in lines if l.startswith("VIOLATION")]
         detail = [l.strip() for l in lines if l.strip().startswith("detail:")]
-        fired[c] = {"rc": r.returncode, "violation": bool(viol), "wall": round(time.time() - t0, 1),
+        fired[c] = {"rc": r.returncode, "violation": bool(viol), "wall": round(time.time() - t0, 1), "via_plain_build": r is rp,
                     "detail": detail[0][:400] if detail else ("" if r.returncode in (0, 1) else (r.stdout + r.stderr)[-300:])}
         # keep the first replay for the record
         if viol:
